@@ -136,6 +136,20 @@ class Vec:
         return f"Vec({self.items})"
 
 
+class VecFlags:
+    """x.flags of an array: only the writeable flag is modelled (it is inherited by the rows of a 2-D array)"""
+    def __init__(self, vec):
+        self.vec = vec
+
+    def set_writeable(self, value):
+        def rec(v):
+            v.readonly = not value
+            for x in v.items:
+                if isinstance(x, Vec):
+                    rec(x)
+        rec(self.vec)
+
+
 class ViewVec(Vec):
     """x.real / x.imag of an array: a *view* - reads follow later in-place changes of the base array."""
     def __init__(self, base, fn, col=False):
